@@ -122,7 +122,7 @@ func (k *Keyring) RemoveKey(key []byte) error {
 	k.l.Lock()
 	defer k.l.Unlock()
 
-	if bytes.Equal(key, k.keys[0]) {
+	if len(k.keys) > 0 && bytes.Equal(key, k.keys[0]) {
 		return fmt.Errorf("removing the primary key is not allowed")
 	}
 	for i, installedKey := range k.keys {
